@@ -28,11 +28,15 @@ FIX = {
  "filter": "fix: file_util --files",
  "sizing2": "fix: operand sizing loops forever for label,R",
  "encode": "fix: a save that cannot be encoded truncates",
+ "digits": "fix: a decimal literal of more than 4300 digits",
+ "fccchar": "fix: FCC with a character above",
 }
 
 FIXED = [
  ("C13", "C13-pcr-hang", "pcr", "assembly never finishes: LEAX T,PCR + 122 one-byte statements + T (PCR size fix-point without progress)"),
  ("C13", "C13-indexed-label-sizing-hang", "sizing2", "assembly never finishes: LDA FOO,X + 20 NOPs + RMB 103 + FOO (label,R operand with inverted size bounds; reported by a sub-agent, then reached by the extended PCR stress workload)"),
+ ("C13", "C13-decimal-literal-over-4300-digits", "digits", "ValueError traceback (Python's integer string conversion limit) for a decimal literal of 5000 digits"),
+ ("C13", "C13-fcc-character-above-ff", "fccchar", "IndexError in get_binary_array for FCC with a character above U+00FF (odd number of hex digits)"),
  ("C13", "C13-operand-valuetypeerror", "operand", "ValueTypeError traceback for BVC file.asm (operand constructors let value errors through)"),
  ("C13", "C13-empty-operand-indexerror", "operand", "IndexError traceback for a branch with an empty operand"),
  ("C13", "C13-fcc-empty", "operand", "IndexError traceback for FCC without a string"),
